@@ -225,7 +225,7 @@ _C03_SCEN = [  # (scenario, threads, quick cases, thorough cases)
     ('future_mt', 5, 12000, 600000), ('future_async_mt', 5, 12000, 600000), ('mutex_mt', 4, 10000, 500000), ('mutex_pool_handoff', 1, 20000, 400000),
     ('queue_mt', 5, 8000, 400000), ('lqueue_mt', 5, 8000, 400000), ('shared_future_mt', 4, 10000, 500000),
     ('scheduler_threads', 1, 6000, 200000), ('scheduler_stop_race', 1, 6000, 200000), ('pool_mt', 4, 12000, 400000), ('publisher_mt', 4, 8000, 400000), ('signal_mt', 4, 8000, 400000), ('generator_programs', 2, 6000, 300000), ('aggregator_programs', 2, 4000, 200000), ('adapter_matrix', 2, 9000, 400000), ('storage_mt', 2, 12000, 500000), ('async_start_race', 2, 10000, 400000), ('queue_unblock_contended', 4, 6000, 300000), ('publisher_two_publishers', 4, 8000, 400000),
-    ('pool_nested', 1, 8000, 300000), ('frame_owned_parties', 1, 8000, 300000), ('async_programs', 1, 6000, 300000),
+    ('pool_nested', 1, 8000, 300000), ('pool_dependent', 1, 8000, 300000), ('frame_owned_parties', 1, 8000, 300000), ('async_programs', 1, 6000, 300000),
 ]
 PROPS['C03'] = {
     'technique': 'ThreadSanitizer (happens-before race detection) over the shared multi-threaded scenario library; guarded fence annotation',
@@ -302,7 +302,7 @@ PROPS['C04'] = {
              'throwing level, finishing thread). Third scenario frame_owned_parties: the bound future / a callback awaiter / a thread blocked on the own result is kept alive only by the coroutine frame (argument), so delivery must precede frame destruction.'),
     'min_nontrivial': [150, 1000],
     'require_classes': ['async_start_race:coroutine_won_the_promise', 'async_start_race:competing_call_won_the_promise'],
-    'single_thread_scenarios': ('async_programs', 'frame_owned_parties'),
+    'single_thread_scenarios': ('async_programs', 'frame_owned_parties', 'async_reference_results'),
     'jobs': [
         J('prog_asan', 'c04.cpp', 'asan', [40000, 2000000], scenario='async_programs', threads=1),
         J('prog_rel', 'c04.cpp', 'rel', [40000, 3000000], scenario='async_programs', threads=1),
@@ -313,6 +313,8 @@ PROPS['C04'] = {
         J('owned_asan', 'c04.cpp', 'asan', [3000, 150000], scenario='frame_owned_parties', threads=1),
         J('owned_rel', 'c04.cpp', 'rel', [3000, 300000], scenario='frame_owned_parties', threads=1),
         J('owned_casan', 'c04.cpp', 'casan', [0, 100000], scenario='frame_owned_parties', threads=1, tiers=(T,)),
+        J('ref_asan', 'c04.cpp', 'asan', [3000, 200000], scenario='async_reference_results', threads=1),
+        J('ref_rel', 'c04.cpp', 'rel', [6000, 400000], scenario='async_reference_results', threads=1),
     ],
 }
 
@@ -353,13 +355,15 @@ PROPS['C11'] = {
              'kinds, number executed, number cancelled). Second scenario pool_nested: a job on the outer pool creates, uses and stops an inner pool (stop(), destructor, stop() from the inner worker); follow-up jobs on the live outer pool must be executed on its workers.'),
     'min_nontrivial': [100, 1000],
     'require_classes': ['pool_mt:jobs_executed', 'pool_mt:jobs_cancelled', 'pool_mt:stop_origin_pool_worker', 'pool_mt:rounds_with_both_executed_and_cancelled'],
-    'single_thread_scenarios': ('pool_nested',),
+    'single_thread_scenarios': ('pool_nested', 'pool_dependent'),
     'jobs': [
         J('mt_asan', 'c11.cpp', 'asan', [12000, 600000], scenario='pool_mt', detect_leaks=0),
         J('mt_rel', 'c11.cpp', 'rel', [25000, 1500000], scenario='pool_mt'),
         J('mt_crel', 'c11.cpp', 'crel', [0, 800000], scenario='pool_mt', tiers=(T,)),
         J('nested_asan', 'c11.cpp', 'asan', [1500, 60000], scenario='pool_nested', threads=1),
         J('nested_rel', 'c11.cpp', 'rel', [2500, 150000], scenario='pool_nested', threads=1),
+        J('dep_asan', 'c11.cpp', 'asan', [1500, 60000], scenario='pool_dependent', threads=1),
+        J('dep_rel', 'c11.cpp', 'rel', [2500, 150000], scenario='pool_dependent', threads=1),
     ],
 }
 
